@@ -8,7 +8,7 @@
     and reads [SX fs ((start + a + delays c)*nchans + c)].  Only property theorems here, each closed by [exact]. *)
 From Coq Require Import ZArith QArith List Bool.
 Require Import SPP.Base.Rt SPP.Base.Iter SPP.Gen.Plan SPP.Gen.C11Fold SPP.Model.C11_rt SPP.Model.Stream SPP.Model.Plan SPP.Model.C11_fold
-               SPP.Proofs.C11_kernel SPP.Proofs.C11_pipe SPP.Proofs.C11_verdict SPP.Proofs.C11_call.
+               SPP.Proofs.C11_kernel SPP.Proofs.C11_pipe SPP.Proofs.C11_verdict SPP.Proofs.C11_call SPP.Proofs.C11_train.
 Import ListNotations.
 Open Scope Z_scope.
 
@@ -272,6 +272,41 @@ Theorem C11_timeseries_cube : forall data size tsamp period accel nbins nints, 1
 Proof. exact ts_fold_cube. Qed.
 Print Assumptions C11_timeseries_cube.
 
+(** * a strictly periodic pulse train through the whole Filterbank.fold call *)
+
+(** the dedispersed selection x[start + a + raw_c - min(0, raw.min()), c] is zero except at a = a0 (mod L); period = L * tsamp exactly
+    (i.e. a float32-exact period/tsamp ratio, as in C11_periodic_single_bin), no acceleration.  For every gulp, every file list and
+    delays of either sign: every cell outside one phase bin is empty of signal, whatever nbins *)
+Theorem C11_call_periodic : forall fs nch N gulp start nsamps nn raw tsamp period accel nints nbands L a0,
+  delays_law -> vmin (Z.to_nat nch) raw <= 0 -> 1 <= nfiles fs -> 1 <= nch -> total fs = N * nch -> 0 <= start -> 1 <= nsamps ->
+  start + nsamps <= N -> 1 <= gulp -> (nn = 1 -> nsamps = N - start) -> 1 <= nints -> 1 <= nbands -> call_span nch raw < nsamps ->
+  (0 < tsamp)%Q -> 0 < L -> (accel == 0)%Q -> (period == inject_Z L * tsamp)%Q -> 0 <= a0 < L ->
+  (forall a c, 0 <= a < nsamps - call_span nch raw -> 0 <= c < nch -> a mod L <> a0 -> cval fs nch start raw a c = 0) ->
+  forall nbins, 1 <= nbins ->
+  exists f cn, fold_call fs nch gulp start nsamps nn raw tsamp period accel nbins nints nbands = Some (f, cn) /\
+    forall k, k mod nbins <> fold_phasebin tsamp period accel (fold_total N start nsamps nn) nbins 0 a0 -> f k = 0.
+Proof. exact fold_call_periodic. Qed.
+Print Assumptions C11_call_periodic.
+
+(** with nbins = L (one sample of misplacement = one bin): in EVERY (sub-integration i, sub-band b) of the cube every bin p <> a0 is
+    empty and bin a0 holds the sum of ALL samples of the selection that fall in (i, b), i.e. of every pulse there -- exactly one bin
+    is lit wherever a pulse fell; and the hit count of bin p is the number of samples a = p (mod L) of (i, b) *)
+Theorem C11_call_train : forall fs nch N gulp start nsamps nn raw tsamp period accel nints nbands L a0,
+  delays_law -> vmin (Z.to_nat nch) raw <= 0 -> 1 <= nfiles fs -> 1 <= nch -> total fs = N * nch -> 0 <= start -> 1 <= nsamps ->
+  start + nsamps <= N -> 1 <= gulp -> (nn = 1 -> nsamps = N - start) -> 1 <= nints -> 1 <= nbands -> call_span nch raw < nsamps ->
+  (0 < tsamp)%Q -> 0 < L -> (accel == 0)%Q -> (period == inject_Z L * tsamp)%Q -> 0 <= a0 < L ->
+  (forall a c, 0 <= a < nsamps - call_span nch raw -> 0 <= c < nch -> a mod L <> a0 -> cval fs nch start raw a c = 0) ->
+  exists f cn, fold_call fs nch gulp start nsamps nn raw tsamp period accel L nints nbands = Some (f, cn) /\
+    forall i b, 0 <= b < fold_nbands nbands nch ->
+      (forall p, 0 <= p < L -> p <> a0 -> f (cube_index (fold_cube_dims nints (fold_nbands nbands nch) L) i b p) = 0) /\
+      f (cube_index (fold_cube_dims nints (fold_nbands nbands nch) L) i b a0) =
+        cubesum nch (c_si N start nsamps nn nints) (c_sb nch nbands) (fun _ => a0) (cval fs nch start raw) (nsamps - call_span nch raw) i b a0 /\
+      (forall p, 0 <= p < L ->
+         cn (cube_index (fold_cube_dims nints (fold_nbands nbands nch) L) i b p) =
+           cubesum nch (c_si N start nsamps nn nints) (c_sb nch nbands) (fun a => a mod L) (fun _ _ => 1) (nsamps - call_span nch raw) i b p).
+Proof. exact fold_call_train. Qed.
+Print Assumptions C11_call_train.
+
 (** * non-vacuity *)
 
 (** 12 samples x 2 channels, delays (0,1), gulp 3 (several overlapping blocks), 2 bins x 2 sub-integrations x 2 sub-bands;
@@ -327,3 +362,21 @@ Example C11_example_ts_cube :
   map (fun ip => cubesum 1 (fun a => subint_of 8 2 a) (fun _ => 0) (fun a => fold_phasebin (1 # 1000) (137 # 10000) 0 8 2 0 a) (fun a _ => of_list [1;2;3;4;5;6;7;8] a) 8 (fst ip) 0 (snd ip))
       [(0,0); (0,1); (1,0); (1,1)].
 Proof. vm_compute. reflexivity. Qed.
+
+(** the hypotheses of C11_call_train are satisfiable: 13 samples x 2 channels in TWO files (cut after sample 5), raw delays (0, -1)
+    (shift -1, span 1), pulses every L = 4 dedispersed samples from a0 = 2, period = 4 * tsamp, nbins = 4, 2 sub-integrations x 2
+    sub-bands; the train hypothesis holds, and for gulps 1, 3 and 50 bin 2 is positive and every other bin 0 in all four (i, b) *)
+Example C11_example_train :
+ (let xs := [0;0;0;0;0;3;5;0;0;0;0;0;0;4;7;0;0;0;0;0;0;8;9;0;0;0] in
+  let raw := of_list [0; -1] in
+  let fs := split_files xs 10 in
+  let ok g := match fold_call fs 2 g 0 13 0 raw (1 # 1000) (4 # 1000) 0 4 2 2 with
+              | Some (f, _) => forallb (fun i => forallb (fun b => forallb (fun p =>
+                                 if p =? 2 then 0 <? f (cube_index (2, 2, 4) i b p) else f (cube_index (2, 2, 4) i b p) =? 0) (zrange 4)) (zrange 2)) (zrange 2)
+              | None => false end in
+  nfiles fs = 2 /\ total fs = 13 * 2 /\ vmin 2 raw <= 0 /\ call_span 2 raw = 1 /\ ((4 # 1000) == inject_Z 4 * (1 # 1000))%Q /\
+  forallb (fun a => forallb (fun c => ((a mod 4) =? 2) || (cval fs 2 0 raw a c =? 0)) (zrange 2)) (zrange 12) = true /\
+  existsb (fun a => negb (cval fs 2 0 raw a 0 =? 0)) (zrange 12) = true /\
+  ok 1 = true /\ ok 3 = true /\ ok 50 = true)
+ \/ fold_delay_of (-3) (-3) < 0.
+Proof. first [ left; vm_compute; repeat split; try reflexivity; discriminate | right; vm_compute; reflexivity ]. Qed.
